@@ -310,3 +310,166 @@ theorem constructor_wf (top index : Option Int) (ns : List Node) (ls : List Link
   mkDMRS_wf top index ns ls lnk s i
 
 end Verif.C02
+
+namespace Verif.C02
+open Verif.Tables
+
+/-! ## Pins: the constants of the anchored code that the hand-written model (and the oracle) mirror
+
+`Generated/TablesC02.lean` is rewritten on every run by `harness/c02.py` `tables()` from the live objects of
+/repo: the SimpleDMRS lexer's (regex, name) pairs in order, the two format strings, the string/number
+constants (nested code objects included; docstrings, `None`/bools and message texts dropped) of every anchored
+function, the predicate regexes with their flags (the part-of-speech class, built from a `set`, with its
+letters sorted), the `Lnk` type codes, the DMRS module constants, the list frames and the default argument
+values.  What hand-codes them:
+
+* `c02LexerTokens` — the token kinds `K` of `Model.lean` in the lexer's order (LBRACE … SYMBOL, UNEXPECTED),
+  the literal token texts (`tLBRACE` …), `Verif.Codec.scanDQ`/`escapeDQ` (DQSTRING class), `Lnk.str`/`Lnk.parse`
+  (LNK class) and the lexical domain `SYMBOL_RE`/`LNK_RE`/`lex_ok` of `harness/c02.py`.
+* `c02SdFormats`, `c02SdEncode*Consts` — `encNodeText`, `encLinkText`, `encSortinfoText`/`sortinfoItems` (type `u`
+  omitted, `k=v`), `attrItems` (`top=`/`index=`/`[…]`/quoted surface), `encDmrsText` (`dmrs {`, ` }`, `\n}`,
+  indent `True` = 2), `encListText`, `arrowOf` (`->`/`--`), and the token forms `encNodeToks`/`encLinkToks`/`attrToks`.
+* `c02SdEscapeConsts`, `c02SdUnescapeConsts`, `c02PEscapeConsts`, `c02PUnescapeConsts` — `Verif.Codec.escapeDQ`/`unescapeDQ`.
+* `c02SdDecode*Consts` — `decDmrs` (`dmrs`, `TOP`, `INDEX`), `decType` (`peek(1)`), `decNode`, `decLink`, `decProps`, `decList`.
+* `c02XEncode*Consts`, `c02XDecode*Consts`, `c02DmrxFrame` — `toXml`/`encNodeX`/`encPredX`/`encLinkX`,
+  `ofXml`/`decNodeX`/`decPredX`/`decLinkX`/`decLnkX` (default `-1`), the tags `node`/`link`/`sortinfo`/`realpred`/`gpred`;
+  `c02XEncodeListConsts`/`c02XIndentConsts` are the layout code the oracle exercises (indent depths).
+* `c02JToDictConsts`, `c02JFromDictConsts` — `toDict`/`nodeToDict`/`linkToDict`, `fromDict`/`nodeOfDict`/`linkOfDict`/`lnkOfDict`.
+* `c02PToTriplesConsts`, `c02PFromTriplesConsts` — `toTriples`/`nodeTriples`/`varName` (`q`, `_`, 1-based), `stepTriple`
+  (`instance`, `lnk`, `carg`, `"<>` strip set, `-` split, `top`), `fromTriples`.
+* `c02StripPredicateConsts`, `c02Pred*Consts`, `c02PredicateRegexes` — `stripPred`/`stripRel`, `normalizePred`, `strictSurface`,
+  `isSurface`, `splitPred`, `createPred`, `lemmaOK`, `isPos`.
+* `c02Lnk*Consts`, `c02LnkTypes` — `Verif.Codec.Lnk`, `Lnk.str`, `Lnk.parse`, `Lnk.truthy`, `Lnk.cfrom`, `Lnk.cto`.
+* `c02DmrsConstants`, `c02NormalizeTopConsts`, `c02NodeSortinfoConsts`, `c02DmrsInitConsts`, `c02IsQuantifierConsts`,
+  `c02PropertyPriorityConsts`, `c02BfsConsts` — `TOP_NODE_ID`, `FIRST_NODE_ID`, `CVARSORT`, `EQ_POST`, `RSTR`, `normalizeTop`,
+  `Node.sortinfo`, `mkDMRS`, `isQuantifier`, `propPriority`, `mainComponent`.
+* `c02Lexer*Consts` — `acceptK`, `expectK`, `peek1Kind` (buffer of 1024 tokens: `c02Defaults`).
+* `c02Defaults` — the option defaults the oracle relies on (`properties=True, lnk=True, indent=False`, but
+  `dmrspenman.dumps/dump(properties=False)`), `LookaheadIterator(n=1024)`.
+
+A change to any of these makes this theorem stop checking; the runner reports a broken proof obligation and
+searches for a failing input. -/
+theorem c02_pins :
+    c02LexerTokens =
+      ["\\{", "LBRACE:{", "\\}", "RBRACE:}", "\\[", "LBRACKET:[", "\\]", "RBRACKET:]", "\\(", "LPAREN:(", "\\)", "RPAREN:)", "<(?:-?\\d+[:#]-?\\d+|@\\d+|\\d+(?: +\\d+)*)>", "LNK:a lnk value", "\"([^\"\\\\]*(?:\\\\.[^\"\\\\]*)*)\"", "DQSTRING:a string", ":", "COLON::", "\\/", "SLASH:/", "=", "EQUALS:=", ";", "SEMICOLON:;", "(--|->)", "ARROW:a link arrow", "[^\\s\"\\'()\\/:;<=>[\\]{}]+", "SYMBOL:a symbol", "[^\\s]", "UNEXPECTED"]
+    ∧ c02SdFormats =
+      ["{nodeid} [{pred}{lnk}{carg}{sortinfo}];", "{start}:{pre}/{post} {arrow} {end};"]
+    ∧ c02SdEncodeConsts =
+      [" ", "2", "\n"]
+    ∧ c02SdEncodeDmrsConsts =
+      [" ", " }", "\n", "\n}", "dmrs {", "dmrs {} {{"]
+    ∧ c02SdEncodeAttrsConsts =
+      ["\"{}\"", "top={}", "index={}", "[{}]", " "]
+    ∧ c02SdEncodeNodeConsts =
+      ["", "(\"{}\")", "nodeid", "pred", "lnk", "carg", "sortinfo"]
+    ∧ c02SdEncodeSortinfoConsts =
+      ["u", "{}={}", " ", ""]
+    ∧ c02SdEncodeLinkConsts =
+      ["", "->", "--", "start", "pre", "post", "arrow", "end"]
+    ∧ c02SdEscapeConsts =
+      ["\\", "\\\\", "\"", "\\\""]
+    ∧ c02SdUnescapeConsts =
+      ["0", "\\", "1", "2", ""]
+    ∧ c02SdDecodeDmrsConsts =
+      ["dmrs", "TOP", "INDEX", "0", "top", "index", "nodes", "links", "lnk", "surface", "identifier"]
+    ∧ c02SdDecodeNodeConsts =
+      ["1", "0", "type", "properties", "carg", "lnk"]
+    ∧ c02SdDecodeLinkConsts =
+      []
+    ∧ c02SdDecodePropsConsts =
+      ["0"]
+    ∧ c02SdDecodeListConsts =
+      []
+    ∧ c02XEncodeDmrsConsts =
+      ["cfrom", "cto", "top", "index", "surface", "ident", "dmrs", "attrib"]
+    ∧ c02XEncodeNodeConsts =
+      ["nodeid", "cfrom", "cto", "surface", "base", "carg", "node", "attrib", "sortinfo"]
+    ∧ c02XEncodePredConsts =
+      ["lemma", "pos", "sense", "realpred", "attrib", "gpred"]
+    ∧ c02XEncodeLinkConsts =
+      ["link", "from", "to", "attrib", "rargname", "post"]
+    ∧ c02XDecodeDmrsConsts =
+      [".", "top", "index", "node", "link", "surface", "ident", "top", "index", "nodes", "links", "lnk", "surface", "identifier"]
+    ∧ c02XDecodeNodeConsts =
+      ["sortinfo", "nodeid", "*[1]", "surface", "base", "carg", "id", "predicate", "type", "properties", "lnk", "surface", "base", "carg"]
+    ∧ c02XDecodePredConsts =
+      ["gpred", "realpred", "lemma", "pos", "sense"]
+    ∧ c02XDecodeSortinfoConsts =
+      []
+    ∧ c02XDecodeLinkConsts =
+      ["from", "to", "rargname", "text", "post", "start", "end", "role", "post"]
+    ∧ c02XDecodeLnkConsts =
+      ["cfrom", "-1", "cto"]
+    ∧ c02XDecodeListConsts =
+      ["end", "events", "dmrs"]
+    ∧ c02XEncodeListConsts =
+      ["dmrs-list", "LKB", "Lkb", "lkb", "0", "3", "indent", "maxdepth", "level", "4", "maxdepth", "level", "unicode", "encoding"]
+    ∧ c02XIndentConsts =
+      ["\n", " ", "1", ""]
+    ∧ c02JToDictConsts =
+      ["nodeid", "predicate", "sortinfo", "carg", "from", "to", "lnk", "surface", "base", "from", "to", "rargname", "post", "nodes", "links", "top", "index", "identifier"]
+    ∧ c02JFromDictConsts =
+      ["from", "to", "nodes", "sortinfo", "nodeid", "predicate", "carg", "lnk", "surface", "base", "type", "properties", "carg", "lnk", "surface", "base", "links", "from", "to", "rargname", "post", "top", "index", "identifier", "top", "index", "nodes", "links", "lnk", "surface", "identifier"]
+    ∧ c02PToTriplesConsts =
+      ["start", "1", "q", "{}{}", "_", "key", ":instance", ":lnk", "\"{}\"", ":carg", ":", ":{}-{}"]
+    ∧ c02PFromTriplesConsts =
+      [":", "top", "pred", "lnk", "type", "props", "carg", "instance", "pred", "lnk", "\"<>", "carg", "0", "-1", "\"", "\"", "1", "type", "props", "-", "id", "predicate", "type", "properties", "lnk", "carg", "top", "nodes", "links", "lnk", "surface", "identifier"]
+    ∧ c02PEscapeConsts =
+      ["\\", "\\\\", "\"", "\\\""]
+    ∧ c02PUnescapeConsts =
+      ["0", "\\", "1", "2", ""]
+    ∧ c02NormalizeTopConsts =
+      []
+    ∧ c02NodeSortinfoConsts =
+      []
+    ∧ c02DmrsInitConsts =
+      []
+    ∧ c02IsQuantifierConsts =
+      []
+    ∧ c02StripPredicateConsts =
+      ["\"", "1", "-1", "'", "-4", "_rel"]
+    ∧ c02PredNormalizeConsts =
+      []
+    ∧ c02PredSplitConsts =
+      ["lemma", "pos", "sense"]
+    ∧ c02PredCreateConsts =
+      ["_"]
+    ∧ c02PredIsSurfaceConsts =
+      ["1"]
+    ∧ c02PropertyPriorityConsts =
+      []
+    ∧ c02LnkInitConsts =
+      ["1", "-1", "<", ">", "@", ":", "#"]
+    ∧ c02LnkStrConsts =
+      ["", "<{}:{}>", "0", "1", "<{}#{}>", "<@{}>", "<{}>", " "]
+    ∧ c02LnkBoolConsts =
+      ["-1", "-1"]
+    ∧ c02LnkCfromConsts =
+      ["-1", "0"]
+    ∧ c02LnkCtoConsts =
+      ["-1", "1"]
+    ∧ c02LnkCharspanConsts =
+      []
+    ∧ c02BfsConsts =
+      []
+    ∧ c02LexerPeekConsts =
+      ["0", "1"]
+    ∧ c02LexerNextConsts =
+      ["0"]
+    ∧ c02LexerAcceptConsts =
+      ["skip", "drop", "skip"]
+    ∧ c02LexerExpectConsts =
+      ["skip", "lineno", "offset", "text", "1", "0"]
+    ∧ c02PredicateRegexes =
+      ["[^\\s_]+", "32", "[acdjnpqrsuvx]", "34", "[^\\s_]+", "32", "(_[^\\s_]+_[acdjnpqrsuvx](?:_[^\\s_]+)?)$|([^\\s_]\\S*)$", "34", "_?(?P<lemma>[^\\s_]+(?:_[^\\s_]+)*?)(?:_(?P<pos>[acdjnpqrsuvx]))?(?:_(?P<sense>[^\\s_]+))?(?:_rel)?$", "34"]
+    ∧ c02LnkTypes =
+      ["0", "1", "2", "3", "4"]
+    ∧ c02DmrxFrame =
+      ["<dmrs-list>", "", "</dmrs-list>", "[", ",", "]"]
+    ∧ c02DmrsConstants =
+      ["0", "10000", "RSTR", "MOD", "EQ", "HEQ", "NEQ", "H", "NIL", "cvarsort"]
+    ∧ c02Defaults =
+      ["simpledmrs.encode(True, True, False)", "simpledmrs.dumps(True, True, False)", "simpledmrs.dump(True, True, False, 'utf-8')", "dmrx.encode(True, True, False)", "dmrx.dumps(True, True, False)", "dmrx.dump(True, True, False, 'utf-8')", "dmrsjson.encode(True, True, False)", "dmrsjson.dumps(True, True, False)", "dmrsjson.dump(True, True, False, 'utf-8')", "dmrspenman.encode(True, True, False)", "dmrspenman.dumps(False, True, False)", "dmrspenman.dump(False, True, False, 'utf-8')", "to_dict(True, True)", "to_triples(True, True)", "LookaheadIterator(1024)", "LookaheadLexer(1024)", "peek(0, None, False)", "Node(None, None, None, None, None, None)", "DMRS(None, None, None, None, None, None, None)"] := by
+  refine ⟨?_, ?_, ?_, ?_, ?_, ?_, ?_, ?_, ?_, ?_, ?_, ?_, ?_, ?_, ?_, ?_, ?_, ?_, ?_, ?_, ?_, ?_, ?_, ?_, ?_, ?_, ?_, ?_, ?_, ?_, ?_, ?_, ?_, ?_, ?_, ?_, ?_, ?_, ?_, ?_, ?_, ?_, ?_, ?_, ?_, ?_, ?_, ?_, ?_, ?_, ?_, ?_, ?_, ?_, ?_, ?_, ?_, ?_, ?_, ?_⟩ <;> rfl
+
+end Verif.C02
